@@ -152,7 +152,7 @@ func banCorrespondence(ctx *Ctx, r *Rng, n int) {
 		got := safely(func() string {
 			var oo []core.Option
 			if len(ban) > 0 {
-				oo = append(oo, core.WithBannedDirectives(ban...))
+				oo = append(oo, banOptions(ban)...)
 			}
 			c := core.NewJApiCore(fs.NewFile("root.jst", content), oo...)
 			if je := c.VerifScanOnly(); je != nil {
